@@ -10,6 +10,7 @@ Oracles: every thread's rows and description equal the statement's serial result
 serially; M4 running-balance monitor (a posting added twice within one row).
 """
 import sys
+from decimal import Decimal
 import threading
 import time
 
@@ -276,6 +277,8 @@ STATEMENTS = {
     'div-agg': ('SELECT account, sum(number) / 7 AS s, sum(number / 3) AS t, count(*) AS n GROUP BY account ORDER BY account', None),
     'ctx-funcs': ('SELECT account, convert(position, "USD") AS c, value(position) AS v, getprice(currency, "USD") AS p, account_sortkey(account) AS k, '
                   'possign(number, account) AS g, open_date(account) AS o, currency_meta(currency, "name") AS m ORDER BY date, account, number', None),
+    'ctx-dated': ('SELECT date, account, getprice(currency, "USD", date) AS p, convert(position, "USD", date) AS c, value(position, date) AS v, '
+                  'getprice(currency, "USD") AS l, currency_meta(currency, "name") AS m, open_meta(account, "note") AS o WHERE currency != "USD"', None),
     'ctx-agg': ('SELECT account_sortkey(account) AS k, convert(sum(position), "USD") AS c, value(sum(position)) AS v GROUP BY 1 ORDER BY 1', None),
     # statements that are refused, or that raise part-way through: the other thread is not to notice
     'bad-params': ('SELECT date WHERE account ~ %(acc)s AND number > %(num)s', {'acc': 'Assets'}),
@@ -299,7 +302,7 @@ STATEMENTS = {
 PAIRS = [('bal2', 'bal1'), ('bal2', 'bal3'), ('bal3', 'subq-in'), ('units-bal', 'journal'), ('agg', 'agg-year'), ('agg', 'agg'), ('subq-from', 'subq-in'),
          ('param-a', 'param-b'), ('named', 'param-a'), ('open-close', 'close'), ('open-close', 'bal2'), ('balances', 'journal'), ('distinct', 'entries'),
          ('pivot', 'agg'), ('bal2', 'bal2'), ('close', 'bal1'), ('open-close', 'open-close-rows'), ('close', 'close-count'), ('open-close', 'open-close'), ('div', 'div-agg'), ('div-agg', 'bal2'),
-         ('ctx-funcs', 'ctx-funcs'), ('ctx-funcs', 'ctx-agg'), ('balances', 'balances'),
+         ('ctx-funcs', 'ctx-funcs'), ('ctx-funcs', 'ctx-agg'), ('balances', 'balances'), ('ctx-dated', 'ctx-dated'), ('ctx-dated', 'ctx-funcs'),
          ('journal', 'journal'), ('journal', 'journal-cost'), ('prices', 'prices-agg'), ('txns', 'txns'), ('notes-events', 'prices'), ('accounts', 'ctx-funcs'),
          ('bad-params', 'param-b'), ('bad-params2', 'named'), ('runtime-fail', 'bal2'), ('bad-column', 'agg'), ('bad-params', 'bad-params2')]
 
@@ -389,18 +392,35 @@ def check_schedule(ctx, jobs, serial, segments, rng, p_switch, label, case, line
     return sched
 
 
+def twin_text(text):
+    """The same ledger -- same dates, accounts, postings, hence the same rows in the same order -- with every price five times
+    as high and other commodity and account metadata: whatever a function keeps between two calls under a key that leaves the
+    connection out (a commodity pair and a date, a currency, an account name) collides between the two ledgers."""
+    import re
+    def price(m):
+        return f'{m.group(1)}{Decimal(m.group(2)) * 5}{m.group(3)}'
+    out = re.sub(r'(?m)^(\d{4}-\d\d-\d\d price \S+\s+)([0-9.]+)( \S+)$', price, text)
+    out = out.replace(' name"', ' other name"').replace('note: "some text"', 'note: "another text"')
+    return out
+
+
 def build_pair(ctx, rng, pi, mode):
     """-> (make_jobs, label, case) for pair index pi in connection mode 'shared' | 'separate' | 'different'.
     make_jobs() opens NEW connections: whatever a connection derives lazily on first use (period views, caches) is then
     derived inside the schedule, by whichever thread gets there first."""
     a, b = PAIRS[pi % len(PAIRS)]
     led = ledgers.gen_ledger(rng, ntxn=rng.randint(3, ctx.pick(5, 8)), with_queries=False)
+    if mode == 'twin':
+        # enough postings in other currencies than USD, lots and prices for the look-ups to have something to find
+        led = ledgers.gen_ledger(rng, ntxn=rng.randint(10, 14), with_queries=False, exotic=rng.random() < 0.7)
     if 'journal' in a or 'journal' in b:
         # texts longer than the widths JOURNAL shortens them to (payee 48, narration 80), so that the width in force matters
         extra = ''.join(f'2020-0{m}-1{m} * "{"Consolidated Amalgamated International Hardware and Garden Supplies Ltd " * w}" "{"a narration well beyond eighty characters " * 3}{m}"\n'
                         f'  Assets:Cash  -{m}.00 USD\n  Expenses:Food  {m}.00 USD\n' for m, w in ((1, 1), (2, 2), (3, 1)))
         led = ledgers.Ledger(led.text + extra)
     led2 = ledgers.gen_ledger(rng, ntxn=rng.randint(3, 6), with_queries=False, renamed_roots=rng.random() < 0.5) if mode == 'different' else None
+    if mode == 'twin':
+        led2 = ledgers.Ledger(twin_text(led.text))
     (ta, pa), (tb, pb) = STATEMENTS[a], STATEMENTS[b]
     shared_ast = a.startswith('param') and b.startswith('param') and mode == 'shared' and rng.random() < 0.7
 
@@ -571,12 +591,14 @@ def _run(ctx):
         ctx.count('obs.declared_threadsafety', beanquery.threadsafety)
     modes = ['shared', 'separate', 'different']
     work = [(pi, m) for pi in range(len(PAIRS)) for m in modes]
+    # the twin ledger for the pairs whose statements consult per-connection look-up structures (prices, commodities, accounts)
+    work += [(pi, 'twin') for pi in range(len(PAIRS)) if any(x.startswith(('ctx-', 'accounts', 'balances', 'journal-cost')) for x in PAIRS[pi])]
     for idx, (pi, m) in enumerate(work):
         if not ctx.mine(idx):
             continue
         if ctx.out_of_time():
             break
-        if ctx.quick and m != 'shared' and pi % 4 and not PAIRS[pi][0].startswith(('ctx-', 'balances', 'journal')):
+        if ctx.quick and m not in ('shared', 'twin') and pi % 4 and not PAIRS[pi][0].startswith(('ctx-', 'balances', 'journal')):
             continue
         explore_pair(ctx, pi, m)
     if ctx.shard == 0:
